@@ -749,7 +749,15 @@ func (c *encCheck) leafCheck(in, out []byte, path string) {
 	if !ok {
 		return
 	}
-	if p := c.verify(e.treat, in, string(out)); p != "" {
+	p := c.verify(e.treat, in, string(out))
+	if p == "" && e.treat != "keep" && e.treat != "any" && cap(out) > len(out) && len(in) > 4 {
+		// the replacement must not sit in front of the old plaintext: whoever holds the
+		// forwarded event can re-slice a []byte to its capacity
+		if tail := out[len(out):cap(out)]; bytes.Contains(tail, in[len(in)-4:]) {
+			p = fmt.Sprintf("PLAINTEXT readable behind the value: re-slicing the forwarded []byte to its capacity (%d) shows %q", cap(out), truncate(string(out[:cap(out)]), 120))
+		}
+	}
+	if p != "" {
 		class := fmt.Sprintf("payload=%s,at=%s", c.top, normPath(e.where))
 		if c.top == "struct-value" {
 			// a struct passed by value is not filtered at all: one finding, whatever the path
@@ -926,6 +934,17 @@ func runEncrypt(rc *RunCtx, prop string) {
 	if tp.Choose(2, "info") == 0 {
 		kv.info = []byte("filter-info")
 	}
+	// C16: key ids are labels, not key material: successive wrappers may carry the same id, or none
+	keyID := func(n int) string { return fmt.Sprintf("key-%d", n) }
+	if prop == "C16" {
+		switch tp.Choose(3, "keyids") {
+		case 1:
+			keyID = func(int) string { return "the-key" }
+		case 2:
+			keyID = func(int) string { return "" }
+		}
+		kv.w = newAead(kv.key, keyID(1))
+	}
 	wrapperMode := "aead"
 	if prop == "C09" {
 		wrapperMode = []string{"aead", "aead", "none", "nokey", "failing"}[tp.Choose(5, "wrapper")]
@@ -964,7 +983,7 @@ func runEncrypt(rc *RunCtx, prop string) {
 			if prop == "C16" && tp.Choose(3, "rotate") == 0 {
 				nv := &keyVersion{n: len(versions) + 1}
 				nv.key = keyBytes(nv.n)
-				nv.w = newAead(nv.key, fmt.Sprintf("key-%d", nv.n))
+				nv.w = newAead(nv.key, keyID(nv.n))
 				nv.salt, nv.info = cur.salt, cur.info
 				if tp.Choose(2, "newsalt") == 0 {
 					nv.salt = []byte(fmt.Sprintf("salt-%d", nv.n))
@@ -1414,12 +1433,18 @@ func runEncryptRotateConc(rc *RunCtx) {
 	sim := rc.Sim
 	rc.UnorderedDigest = true
 	versions := []*keyVersion{}
+	// in one run in three only the KEY changes on rotation: same key id, same salt, same info
+	keyOnly := tp.Choose(3, "key-only-rotation") == 0
 	mk := func() *keyVersion {
 		nv := &keyVersion{n: len(versions) + 1}
 		nv.key = keyBytes(nv.n)
 		nv.w = newAead(nv.key, fmt.Sprintf("key-%d", nv.n))
 		nv.salt = []byte(fmt.Sprintf("salt-%d", nv.n))
 		nv.info = []byte(fmt.Sprintf("info-%d", nv.n))
+		if keyOnly {
+			nv.w = newAead(nv.key, "the-key")
+			nv.salt, nv.info = []byte("salt"), []byte("info")
+		}
 		versions = append(versions, nv)
 		return nv
 	}
